@@ -87,7 +87,8 @@ CHECKS["C09"] = dict(
 CHECKS["C13"] = dict(
    text="Machine-checked refinement proof: one next() call delivers exactly the next event of the single pass; any partition into "
         "chunks drained by any number of iterator bindings yields the same events, order, timestamps and final state; an event's "
-        "timestamp equals the samples consumed; timestamps never decrease. Link lifecycle: for every item stream the link events follow "
+        "timestamp equals the samples consumed; timestamps never decrease; iter_events() and iter_messages() calls mixed in any order on one "
+        "receiver hand out, in order, a subsequence of the single pass (a message call drops exactly the non-message events before the next message). Link lifecycle: for every item stream the link events follow "
         "no carrier -> searching -> {reading, no carrier}, reading -> burst, burst -> no carrier, plus the single extra edge burst -> "
         "searching, which does occur (witness stream; known finding F7); the squelch cannot re-synchronise while a burst is read. "
         "Correspondence: five call schedules per audio case on the real receiver; lifecycle oracle on every trace.",
@@ -214,7 +215,7 @@ CHECKS["C10"] = dict(
         "witness). Sampled on the real receiver: hostile prefixes composed from a "
         "17-generator library (clipping square waves up to 2^20, DC steps, noise, tones, endless preamble/carrier, truncated and malformed "
         "transmissions, level jumps, preamble-like tails), a 1..2 s gap, a clean transmission: no panic, finite state, decoded exactly, "
-        "tick-trace replay equal.",
+        "tick-trace replay equal. Known findings F9 and F11 (a burst at low amplitude with noise occasionally runs on to the framer's limit).",
    note=RX_NOTE,
    technique="Coq invariant + recovery proofs over symbol streams + tick-trace replay correspondence + hostile-audio sampling under catch_unwind",
    ref="§5 C10, §11")
